@@ -15,11 +15,24 @@ class StopJobs(Jobs):
     name = 'stopjobs'
 
     def wants_closure(self, w, ev, cfg):
-        return cfg.get('job_kind') == 'ending'
+        return cfg.get('job_kind') == 'ending' or 'loss-while-stopping' in cfg.get('name', '')
 
     def closure_check(self, w, cfg):
         """restart / shutdown: every live Supervisor ends up with exactly one order, everybody in FINAL."""
-        if cfg.get('job_kind') != 'ending' or w.budget['trig'] < len(cfg.get('triggers', [])):
+        if w.budget['trig'] < len(cfg.get('triggers', [])):
+            return None
+        if cfg.get('job_kind') != 'ending':
+            # a stop sequence whose target is lost must still proceed with the lower stop sequences
+            w.round_robin(cfg.get('K', 14), settle=self.settle)
+            obs = w.drain_observations()
+            if internal_errors(obs):
+                return None
+            w.violations = []
+            for i in w.live():
+                for ns, p in w.sups[i].procs():
+                    if ns.startswith('A:') and p.state in RUNNING_LIKE:
+                        return {'clause': 'stop-sequence-stalled', 'signature': 'C09:stalled', 'process': ns, 'on': i,
+                                'state': str(p.state)}
             return None
         alive0 = w.live()
         w.round_robin(cfg.get('K', 14), settle=self.settle)
@@ -87,8 +100,17 @@ def configs(t):
     out.append(base('shutdown-unmanaged', [A2], setup=[started(0, 'A'), ['ustart', 1, 'U:u']], job_kind='ending',
                     extra_groups={'U': {'u': {}}}, triggers=[['rpc', 0, 'shutdown', []]], T=5))
     out.append(base('restart-n3-loss-of-slave', [A2, B2], n=3, setup=[started(0, 'A'), started(1, 'B')],
-                    job_kind='ending', triggers=[['rpc', 0, 'restart', []]], T=3, F=1, faults=['crash'], crashable=[0],
+                    job_kind='ending', triggers=[['rpc', 0, 'restart', []]], T=3, F=1, faults=['crash'], crashable=[1, 2],
                     cost=8))
+    # slow stops: the instance is lost while its process is STOPPING (the acknowledgement came, not the end)
+    A3 = app('A', 0, [prog('a', 1, stop_sequence=2, identifiers='10.0.0.2:25001'), prog('b', 2, stop_sequence=1)],
+             stop_sequence=1)
+    out.append(base('shutdown-loss-while-stopping', [A3], setup=[started(0, 'A', 'CONFIG')], job_kind='ending',
+                    triggers=[['rpc', 0, 'shutdown', []]], T=6, F=1, faults=['crash'], crashable=[1], behaviours=['run'],
+                    K=16, cost=5))
+    out.append(base('stop_application-loss-while-stopping', [A3], setup=[started(0, 'A', 'CONFIG')],
+                    triggers=[['rpc', 0, 'stop_application', ['A', False]]], T=6, F=1, faults=['crash'], crashable=[1],
+                    behaviours=['run'], cost=5))
     out.append(base('failure-strategy-SHUTDOWN', [A2, B2], n=3, setup=[started(0, 'A'), started(1, 'B')],
                     job_kind='ending', options={'synchro_options': 'STRICT', 'supvisors_failure_strategy': 'SHUTDOWN'},
                     triggers=[], T=4, F=1, faults=['crash'], crashable=[0], behaviours=['stopped'], cost=8))
